@@ -73,10 +73,14 @@ def interesting(
 
     if temp_prefix is None:
         outputs = (run_info.out, run_info.err)
+        search = args.search.encode("utf-8")
         for data in outputs:
-            if (args.regex and re.match(args.search, data, flags=re.MULTILINE)) or (
-                args.search.encode("utf-8") in data
-            ):
+            # same decision as `file_contains()` makes on the log files
+            if args.regex:
+                found = re.search(search, data, flags=re.MULTILINE) is not None
+            else:
+                found = search in data
+            if found:
                 LOG.info("[Interesting] Match detected!")
                 return True
 
